@@ -105,6 +105,7 @@ def run(tier: str, replay=None) -> int:
             nm = f"BROKEN_{rd}_{k}"
             tasks[nm] = [bad] if kind == "single" else ([good, bad] if kind == "second" else [bad, good])
             inj_total += 1
+        tasks[f"EMPTY_{rd}"] = []   # an instruction without parts: one entry, no trees, no error
         items = list(tasks.items())
         rng.shuffle(items)
         tasks = dict(items)
@@ -129,8 +130,15 @@ def run(tier: str, replay=None) -> int:
         P.Pool = functools.partial(multiprocessing.get_context("fork").Pool, psize)
         P.parse_single = _slow_parse_single
         try:
+            # the parts of an entry are a sequence: lists (what the loader stores) and, in the rounds without the in-place edits
+            # below, tuples (what split_compounds returns) for a random half of the entries
+            passed = dict(tasks)
+            if rd not in (0, 2) and not replay:
+                passed = {nm: (tuple(v) if rng.random() < 0.5 else v) for nm, v in tasks.items()}
+            elif replay and json.load(open(replay)).get("tuples"):
+                passed = {nm: (tuple(v) if nm in set(json.load(open(replay))["tuples"]) else v) for nm, v in tasks.items()}
             with rc.quiet():
-                real = P.Parser.parse(dict(tasks))
+                real = P.Parser.parse(passed)
         finally:
             P.Pool = P._orig_Pool
             P.parse_single = P._orig_parse_single
@@ -165,6 +173,7 @@ def run(tier: str, replay=None) -> int:
             if not why:
                 why.append("entry order differs from task order")
             viol.append({"what": why[:4], "pool_size": psize, "tasks": list(tasks.items()), "delay_seed": _delay_seed,
+                         "tuples": [nm for nm, v in passed.items() if isinstance(v, tuple)],
                          "reproduce": "replace rzilcompiler.Parser.Pool by functools.partial(multiprocessing.Pool, pool_size) and call Parser.parse(dict(tasks)); compare with in-process parsing of each part"})
         if replay:
             break
